@@ -133,3 +133,20 @@ def compare(cold, warm, r, tol=1e-9):
         for wf in warm[len(want):]:
             diffs.append(f"extra file {wf[0]['file'] if wf else '?'} with times {[x['time'] for x in wf]}")
     return diffs
+
+
+def warm_pid_scenario(d, adv="EF"):
+    """A split run WITHOUT particle variables in the output in which the youngest particle (pid 1, released at step 1)
+    is killed at step 2 — it is in the records of steps 1 and 2 of the first file but not in its last record — and more
+    particles are released after the restart (steps 5 and 6).  Returns the differences between the files of the run
+    restarted from the first file and those of the uninterrupted run (pids first of all): a particle released after the
+    restart must get the next unused identifier, the dead one must not come back."""
+    sc = {"N": 8, "p": 1, "numrec": 4, "dt": 600, "adv": adv, "lifetime": None, "kill": {2: [1]},
+          "rows": [[0, 3.0, 3.0, 20.0], [600, 4.0, 3.5, 70.0], [3000, 5.0, 3.25, 20.0], [3600, 3.5, 3.75, 70.0]],
+          "continuous": None, "u": 0.1, "reference": 0, "offgrid": False, "pvars": False}
+    cold, warm = run_split_and_restarts(d, sc)
+    diffs = []
+    for r in sorted(warm):
+        diffs += [f"restart after file {r}: {x}" for x in compare(cold, warm[r], r)]
+    pids_cold = [[int(q) for q in rec["vars"]["pid"]] for f in cold for rec in f]
+    return diffs, pids_cold
